@@ -106,9 +106,12 @@ func genPlan(t *rapid.T) Plan {
 	return Plan{Ops: rapid.SliceOfN(rapid.Custom(genOp), 1, 80).Draw(t, "ops")}
 }
 
-type runner struct {
-	d      deque.Deque[*int]
-	model  []*int
+// runner is generic over the element type: *int (fresh pointers, so that retention is visible) and
+// any (values that include the nil interface and the zero int - a zero value is an ordinary element).
+type runner[T comparable] struct {
+	d      deque.Deque[T]
+	model  []T
+	mk     func(id int) T
 	nextID int
 	out    vk.Outcome
 	// facts for the non-trivial rule
@@ -116,14 +119,12 @@ type runner struct {
 	reallocWrapped   bool
 }
 
-func (r *runner) fresh() *int {
+func (r *runner[T]) fresh() T {
 	r.nextID++
-	v := new(int)
-	*v = r.nextID
-	return v
+	return r.mk(r.nextID)
 }
 
-func (r *runner) resolve(o Op) int {
+func (r *runner[T]) resolve(o Op) int {
 	capacity, _, _, _ := r.d.VerifState()
 	switch o.Base {
 	case "len":
@@ -134,13 +135,13 @@ func (r *runner) resolve(o Op) int {
 	return o.A
 }
 
-func (r *runner) wrapped() bool {
+func (r *runner[T]) wrapped() bool {
 	_, front, back, _ := r.d.VerifState()
 	return len(r.model) > 0 && front > back
 }
 
 // observe compares the complete visible state with the model and checks slot retention.
-func (r *runner) observe(step int, o Op) error {
+func (r *runner[T]) observe(step int, o Op) error {
 	d := &r.d
 	if d.Len() != len(r.model) {
 		return vk.Violf("len", "step %d %v: Len()=%d model %d", step, o, d.Len(), len(r.model))
@@ -192,9 +193,10 @@ func (r *runner) observe(step int, o Op) error {
 		live[(front+i)%capacity] = true
 	}
 	for i, p := range slots {
-		if !live[i] && p != nil {
-			return vk.Violf("retained", "step %d %v: vacated slot %d (cap %d front %d back %d len %d) still references element %d",
-				step, o, i, capacity, front, back, len(r.model), *p)
+		var zero T
+		if !live[i] && p != zero {
+			return vk.Violf("retained", "step %d %v: vacated slot %d (cap %d front %d back %d len %d) still references element %v",
+				step, o, i, capacity, front, back, len(r.model), deref(p))
 		}
 	}
 	full := capacity > 0 && len(r.model) == capacity
@@ -214,14 +216,17 @@ func (r *runner) observe(step int, o Op) error {
 	return nil
 }
 
-func deref(p *int) any {
-	if p == nil {
-		return nil
+func deref(p any) any {
+	if q, ok := p.(*int); ok {
+		if q == nil {
+			return nil
+		}
+		return *q
 	}
-	return *p
+	return p
 }
 
-func (r *runner) expectPanic(step int, o Op, f func()) error {
+func (r *runner[T]) expectPanic(step int, o Op, f func()) error {
 	if p, _ := vk.Catch(f); !p {
 		return vk.Violf("nopanic", "step %d %v: expected a panic (len %d)", step, o, len(r.model))
 	}
@@ -229,17 +234,17 @@ func (r *runner) expectPanic(step int, o Op, f func()) error {
 	return nil
 }
 
-func (r *runner) pushBack() {
+func (r *runner[T]) pushBack() {
 	v := r.fresh()
 	r.d.PushBack(v)
 	r.model = append(r.model, v)
 }
-func (r *runner) pushFront() {
+func (r *runner[T]) pushFront() {
 	v := r.fresh()
 	r.d.PushFront(v)
-	r.model = append([]*int{v}, r.model...)
+	r.model = append([]T{v}, r.model...)
 }
-func (r *runner) popFront(step int, o Op) error {
+func (r *runner[T]) popFront(step int, o Op) error {
 	got := r.d.PopFront()
 	if got != r.model[0] {
 		return vk.Violf("pop", "step %d %v: PopFront()=%v want %v", step, o, deref(got), deref(r.model[0]))
@@ -247,7 +252,7 @@ func (r *runner) popFront(step int, o Op) error {
 	r.model = r.model[1:]
 	return nil
 }
-func (r *runner) popBack(step int, o Op) error {
+func (r *runner[T]) popBack(step int, o Op) error {
 	got := r.d.PopBack()
 	if got != r.model[len(r.model)-1] {
 		return vk.Violf("pop", "step %d %v: PopBack()=%v want %v", step, o, deref(got), deref(r.model[len(r.model)-1]))
@@ -256,7 +261,7 @@ func (r *runner) popBack(step int, o Op) error {
 	return nil
 }
 
-func (r *runner) step(step int, o Op) error {
+func (r *runner[T]) step(step int, o Op) error {
 	d := &r.d
 	capBefore, _, _, _ := d.VerifState()
 	wrappedBefore := r.wrapped()
@@ -372,7 +377,24 @@ func (r *runner) step(step int, o Op) error {
 }
 
 func runPlan(p Plan) (vk.Outcome, error) {
-	r := &runner{}
+	return runWith(p, func(id int) *int { v := new(int); *v = id; return v })
+}
+
+// runPlanAny: elements are interface values; every third one is the nil interface, every third one 0.
+func runPlanAny(p Plan) (vk.Outcome, error) {
+	return runWith(p, func(id int) any {
+		switch id % 3 {
+		case 0:
+			return nil
+		case 1:
+			return 0
+		}
+		return id
+	})
+}
+
+func runWith[T comparable](p Plan, mk func(int) T) (vk.Outcome, error) {
+	r := &runner[T]{mk: mk}
 	if err := r.observe(-1, Op{Op: "zero"}); err != nil {
 		return r.out, err
 	}
@@ -387,6 +409,10 @@ func runPlan(p Plan) (vk.Outcome, error) {
 
 func TestDeque(t *testing.T) {
 	vk.Run(t, suite, "deque", 5000, genPlan, runPlan)
+}
+
+func TestDequeInterfaceElements(t *testing.T) {
+	vk.Run(t, suite, "deque-any", 2500, genPlan, runPlanAny)
 }
 
 // FuzzDeque: native coverage-guided fuzzing of the same property (thorough tier only).
